@@ -99,8 +99,8 @@ def gen_schedules(pid, cfgobj, dev, workers=4, emit=()):
     return tlc_lines(r["out"], "SCHED"), r
 
 
-def to_case(cid, cfgobj, sched, opts):
-    return {"id": cid, "opts": opts, "names": list(cfgobj.names), "pk": cfgobj.pk,
+def to_case(cid, cfgobj, sched, opts, probe_seed=0):
+    return {"id": cid, "opts": opts, "names": list(cfgobj.names), "pk": cfgobj.pk, "probe_seed": probe_seed,
             "init": {n: [sorted(rs) for rs in cfgobj.init.get(n, [])] for n in cfgobj.names},
             "prog": {s: [{"k": st["k"], "t": st["t"], "rows": sorted(st["rows"])} for st in p]
                      for s, p in cfgobj.prog.items()},
@@ -240,7 +240,9 @@ def same_as_spec(rec, s, cfgobj):
 def replay(v, pid, cfgobj, scheds, seed, stats, known_dev=None):
     cases = []
     for i, s in enumerate(scheds):
-        cases.append(to_case(f"{cfgobj.name}.{i}", cfgobj, s, OPT_GRID[i % len(OPT_GRID)]))
+        # every third replay also probes the manifest-lock discipline (seeded extra releases)
+        cases.append(to_case(f"{cfgobj.name}.{i}", cfgobj, s, OPT_GRID[i % len(OPT_GRID)],
+                             probe_seed=(seed * 1000 + i + 1) if (i % 3 == 2 or (pid == "C10" and i % 2 == 1)) else 0))
     outs = run_sharded("sched", cases, tag=f"{pid}-{cfgobj.name}", timeout=3400)
     recs, meta = [], {}
     for c, s, o in zip(cases, scheds, outs):
@@ -254,11 +256,14 @@ def replay(v, pid, cfgobj, scheds, seed, stats, known_dev=None):
         c, s, o, integrity = meta[rec["id"]]
         serial, reopens = verdicts[rec["id"]]
         stats["replayed"] += 1
-        stats["drift"] += 1 if o["drift"] else 0
-        if o["drift"] and len(stats["drift_samples"]) < 3:
-            stats["drift_samples"].append(o["drift"][:3])
+        stats["probes"] = stats.get("probes", 0) + o.get("probes", 0)
+        probed = c.get("probe_seed", 0) != 0
+        if not probed:
+            stats["drift"] += 1 if o["drift"] else 0
+            if o["drift"] and len(stats["drift_samples"]) < 3:
+                stats["drift_samples"].append(o["drift"][:3])
         # conformance beyond the property: does the code produce exactly the spec's outcome?
-        if s.get("complete", True) and rec["final"] != {
+        if not probed and s.get("complete", True) and rec["final"] != {
                 n: {"k": s["final"][n]["k"], "rows": sorted(s["final"][n]["rows"])} for n in cfgobj.names}:
             stats["outcome_differs_from_spec"] += 1
         if overlap(s):
@@ -337,6 +342,7 @@ def check_c09(args):
         "mc_runs": mc_runs, "generation": gens, "conformance_drift": stats["drift"],
         "drift_samples": stats["drift_samples"],
         "outcome_differs_from_spec": stats["outcome_differs_from_spec"],
+        "manifest_lock_probes": stats.get("probes", 0),
         "known_findings_seen": sorted(v.seen_known), "exhaustive": False},
         ["exploration at yield-point granularity on one thread (no data races inside a critical section)",
          "rows are distinct keys; deletes name keys explicitly", "bounds: see mc_runs / generation"],
@@ -510,6 +516,8 @@ def c10_configs(big):
         Config("d5", ("A",), {"s1": [stmt("ins", "A", {4}), stmt("sel", "A")], "s2": [stmt("del", "A", {1}), stmt("ins", "A", {5})]}, A1, passes=0),
     ]
     cfgs += [
+        Config("d12", ("A", "B"), {"s1": [stmt("del", "A", {1}), stmt("sel", "A")], "s2": [stmt("ins", "B", {7}), stmt("sel", "B")]},
+               {"A": [{1, 2}], "B": [{4}]}, passes=0),
         Config("d3", ("A",), {"s1": [stmt("dt", "A")], "s2": [stmt("sel", "A")]}, A1, passes=1),
         Config("d6", ("A",), {"s1": [stmt("dt", "A"), stmt("ct", "A")], "s2": [stmt("ins", "A", {9}), stmt("sel", "A")]}, {"A": [{1}]}, passes=0),
         # (programs never insert a key that may still exist: rows are modelled as distinct keys)
